@@ -184,6 +184,11 @@ Definition spec_case (s : schema) (table : string) (o : op) (selects omits : lis
   match o with
   | OCreate | OCreateBatch => spec_new_rows s table false selects omits ps cells
   | OCreateMap => spec_new_rows s table true selects omits [p] cells
+  | OCreateMaps => spec_new_rows s table true selects omits ps cells
+  | OFocAssign =>          (* only the found record (first matching row) may change: a map update of it *)
+      spec_update s table ShMap true selects omits p
+                  (firstn 1 (map fst (filter (in_rows model_key where_ids) stored))) cells
+  | OFoiAssign => match cells with [] => true | _ => false end
   | OUpsertAll | OUpsertNothing | OUpsertCols _ =>
       if all_new cells && negb (match cells with [] => true | _ => false end)
       then spec_new_rows s table false selects omits [p] cells
